@@ -19,7 +19,7 @@ from concurrent.futures import ProcessPoolExecutor
 from typing import Any, Dict, List, Optional, Tuple
 
 from sa.model import REPO, Program
-from sa.report import EVIDENCE_DIR, load_known, run_check
+from sa.report import EVIDENCE_DIR, known_for, load_known, run_check
 
 HERE = os.path.dirname(os.path.abspath(__file__))
 
@@ -67,8 +67,7 @@ def findings_with(prop: str, overlays: Dict[str, str]
                               quiet=True, write=False)
     except Exception as ex:  # pylint: disable=broad-except
         return [], "{}: {}".format(type(ex).__name__, ex)
-    known = {k["key"] for k in load_known()
-             if k.get("property") == prop and k.get("status") == "known"}
+    known = {k["key"] for k in known_for(prop)}
     return sorted({f.key for f in chk.findings if f.key not in known}), None
 
 
@@ -157,6 +156,145 @@ class _DropDebug(ast.NodeTransformer):
                 v.func.attr in ("debug", "verbose"):
             return ast.copy_location(ast.Pass(), node)
         return node
+
+
+def _terminates(body: List[ast.stmt]) -> bool:
+    return bool(body) and isinstance(
+        body[-1], (ast.Return, ast.Raise, ast.Continue, ast.Break))
+
+
+class _InvertIfElse(ast.NodeTransformer):
+    """`if c: A else: B`  ->  `if not c: B else: A` (plain else only)."""
+
+    def visit_If(self, node: ast.If) -> Any:
+        self.generic_visit(node)
+        if not node.orelse or (len(node.orelse) == 1 and
+                               isinstance(node.orelse[0], ast.If)):
+            return node
+        test = node.test
+        if isinstance(test, ast.UnaryOp) and isinstance(test.op, ast.Not):
+            new_test: ast.expr = test.operand
+        else:
+            new_test = ast.UnaryOp(op=ast.Not(), operand=test)
+        return ast.copy_location(
+            ast.If(test=new_test, body=node.orelse, orelse=node.body), node)
+
+
+class _DropElseAfterExit(ast.NodeTransformer):
+    """`if c: ...; return/raise/continue/break` + `else: B`  ->  the `if`
+    followed by B (no `elif` chains)."""
+
+    def _flatten(self, stmts: List[ast.stmt]) -> List[ast.stmt]:
+        out: List[ast.stmt] = []
+        for st in stmts:
+            if isinstance(st, ast.If) and st.orelse and \
+                    _terminates(st.body) and not (
+                        len(st.orelse) == 1 and
+                        isinstance(st.orelse[0], ast.If)):
+                tail = st.orelse
+                st.orelse = []
+                out.append(st)
+                out.extend(tail)
+            else:
+                out.append(st)
+        return out
+
+    def generic_visit(self, node: ast.AST) -> ast.AST:
+        super().generic_visit(node)
+        for field in ("body", "orelse", "finalbody"):
+            val = getattr(node, field, None)
+            if isinstance(val, list) and val and \
+                    isinstance(val[0], ast.stmt):
+                setattr(node, field, self._flatten(val))
+        return node
+
+
+class _ElseAfterExit(ast.NodeTransformer):
+    """`if c: ...; return` followed by the rest R of the block  ->
+    `if c: ...; return` `else: R` (the inverse clean-up)."""
+
+    def _nest(self, stmts: List[ast.stmt]) -> List[ast.stmt]:
+        for i, st in enumerate(stmts):
+            if isinstance(st, ast.If) and not st.orelse and \
+                    _terminates(st.body) and i + 1 < len(stmts):
+                st.orelse = self._nest(stmts[i + 1:])
+                return stmts[:i + 1]
+        return stmts
+
+    def generic_visit(self, node: ast.AST) -> ast.AST:
+        super().generic_visit(node)
+        if isinstance(node, (ast.FunctionDef, ast.For, ast.While)):
+            node.body = self._nest(node.body)
+        return node
+
+
+class _ReturnTemp(ast.NodeTransformer):
+    """`return <call or operation>`  ->  `rv_tmp = <expr>; return rv_tmp`
+    (not in generators' bare returns, not for names / constants)."""
+
+    def _expand(self, stmts: List[ast.stmt]) -> List[ast.stmt]:
+        out: List[ast.stmt] = []
+        for st in stmts:
+            if isinstance(st, ast.Return) and st.value is not None and \
+                    not isinstance(st.value, (ast.Name, ast.Constant)):
+                out.append(ast.copy_location(ast.Assign(
+                    targets=[ast.Name(id="rv_tmp", ctx=ast.Store())],
+                    value=st.value), st))
+                out.append(ast.copy_location(ast.Return(
+                    value=ast.Name(id="rv_tmp", ctx=ast.Load())), st))
+            else:
+                out.append(st)
+        return out
+
+    def generic_visit(self, node: ast.AST) -> ast.AST:
+        super().generic_visit(node)
+        for field in ("body", "orelse", "finalbody"):
+            val = getattr(node, field, None)
+            if isinstance(val, list) and val and \
+                    isinstance(val[0], ast.stmt):
+                setattr(node, field, self._expand(val))
+        if isinstance(node, ast.Try):
+            for h in node.handlers:
+                h.body = self._expand(h.body)
+        return node
+
+
+class _SortMethods(ast.NodeTransformer):
+    """Methods of every class in alphabetical order (data attributes and
+    everything else stay in front, in their order)."""
+
+    def visit_ClassDef(self, node: ast.ClassDef) -> Any:
+        funcs = [s for s in node.body if isinstance(s, ast.FunctionDef)]
+        names = [f.name for f in funcs]
+        if len(set(names)) != len(names):
+            return node     # property setters etc. share a name
+        rest = [s for s in node.body if not isinstance(s, ast.FunctionDef)]
+        node.body = rest + sorted(funcs, key=lambda f: f.name)
+        return node
+
+
+STRESS = [("invert-if-else", _InvertIfElse),
+          ("drop-else-after-exit", _DropElseAfterExit),
+          ("else-after-exit", _ElseAfterExit),
+          ("return-through-temp", _ReturnTemp),
+          ("sort-methods", _SortMethods)]
+
+
+def stress_variants() -> List[Tuple[str, Dict[str, str]]]:
+    """Further behaviour-preserving rewrites (whole-tree, mechanical)."""
+    texts: Dict[str, str] = {}
+    for rel in BENIGN_FILES:
+        with open(os.path.join(REPO, rel), "r", encoding="utf-8") as fh:
+            texts[rel] = fh.read()
+    out = []
+    for name, cls in STRESS:
+        ov = {}
+        for rel, t in texts.items():
+            tree = cls().visit(ast.parse(t))
+            ov[rel] = ast.unparse(ast.fix_missing_locations(tree))
+            compile(ov[rel], rel, "exec")
+        out.append((name, ov))
+    return out
 
 
 def benign_variants() -> List[Tuple[str, Dict[str, str]]]:
